@@ -753,7 +753,7 @@ def pick_params(prop, tier, seed):
     for k, f in enumerate(files):
         conf = "default"
         if tier == "thorough":
-            conf = ["default", "jcl", "flipA", "flipB", "flipC", "flipD", "flipE", "flipF"][k % 8]
+            conf = ["default", "jcl", "flipA", "flipB", "flipC", "flipD", "flipE", "flipF", "flipG"][(k + 3 * seed) % 9]  # three seeds see three different configurations per fixture
         elif k % 3 == 2:
             conf = ["jcl", "flipA", "flipB", "flipC", "flipD", "flipE", "flipF"][(k // 3) % 7]
         if isinstance(f, tuple):
